@@ -235,31 +235,43 @@ def pyContains : Str → Str → Bool
   | [], p => p.isEmpty
   | c :: cs, p => isPrefix p (c :: cs) || pyContains cs p
 
-/-- The numeric value `(m, e)` of an `int` or `float` (a `bool` is not a number). -/
+/-- The numeric value `(m, e)` of an `int` or `float` for the equality ladder (a Boolean is not a
+number there: `isinstance(…, int) and not isinstance(…, bool)`). -/
 def Typed.num? : Typed → Option (Int × Int)
   | .int i => some (i, 0)
   | .float m e => some (m, e)
   | _ => none
 
-def Typed.isInt : Typed → Bool | .int _ => true | _ => false
-def Typed.isFloat : Typed → Bool | .float .. => true | _ => false
+/-- The numeric value for the ordering ladders: `isinstance(…, (int, float))`, under which Python
+counts `True`/`False` as `1`/`0` (the pinned test-suite relies on it: `test_wiki_min_max`). -/
+def Typed.ordNum? : Typed → Option (Int × Int)
+  | .bool b => some (if b then 1 else 0, 0)
+  | .int i => some (i, 0)
+  | .float m e => some (m, e)
+  | _ => none
 
 /-- One of the four ordering ladders of `search_matches`; `ok` says which outcomes of the
-three-way comparison satisfy the operator, `txt` is the operator on `str`. -/
-def orderLadder (ok : Ordering → Bool) (txt : Str → Str → Bool) (th tn : Typed) (needle : Str) : Bool :=
+three-way comparison satisfy the operator, `txt` is the operator on `str`;
+`hay` is `str(haystack)`, `needle` is `str(needle)`. -/
+def orderLadder (ok : Ordering → Bool) (txt : Str → Str → Bool) (th tn : Typed) (hay needle : Str) : Bool :=
   match th with
+  | .bool b =>                         -- isinstance(typed_haystack, int): bool is an int
+    match tn.ordNum? with
+    | some (m, e) => ok (decCmp (if b then 1 else 0) 0 m e)
+    | none => false
   | .int i =>
-    match tn.num? with
+    match tn.ordNum? with
     | some (m, e) => ok (decCmp i 0 m e)
     | none => false
   | .float hm he =>
-    match tn.num? with
+    match tn.ordNum? with
     | some (m, e) => ok (decCmp hm he m e)
     | none => false
-  | _ => txt th.pyStr needle
+  | _ => txt hay needle
 
-/-- The body of `Searches.search_matches` on the two typed values and `str(needle)`. -/
-def searchTyped (rx : Str → Str → Option Bool) (m : Method) (th tn : Typed) (needle : Str) :
+/-- The body of `Searches.search_matches` on the two typed values, `str(haystack)` and
+`str(needle)`. -/
+def searchTyped (rx : Str → Str → Option Bool) (m : Method) (th tn : Typed) (hay needle : Str) :
     Except Err Bool :=
   if th = .unmodelled || tn = .unmodelled then .error .outOfModel else
   match m with
@@ -268,29 +280,29 @@ def searchTyped (rx : Str → Str → Option Bool) (m : Method) (th tn : Typed) 
     | .bool a, .bool b => .ok (a == b)
     | .int a, .int b => .ok (a == b)
     | .float m1 e1, .float m2 e2 => .ok (decCmp m1 e1 m2 e2 == .eq)
-    | _, _ => .ok (th.pyStr == needle)
-  | .startsWith => .ok (pyStartsWith th.pyStr needle)
-  | .endsWith => .ok (pyEndsWith th.pyStr needle)
-  | .contains => .ok (pyContains th.pyStr needle)
-  | .gt => .ok (orderLadder (· == .gt) (fun a b => strLt b a) th tn needle)
-  | .lt => .ok (orderLadder (· == .lt) (fun a b => strLt a b) th tn needle)
-  | .ge => .ok (orderLadder (· != .lt) (fun a b => strLe b a) th tn needle)
-  | .le => .ok (orderLadder (· != .gt) (fun a b => strLe a b) th tn needle)
+    | _, _ => .ok (hay == needle)
+  | .startsWith => .ok (pyStartsWith hay needle)
+  | .endsWith => .ok (pyEndsWith hay needle)
+  | .contains => .ok (pyContains hay needle)
+  | .gt => .ok (orderLadder (· == .gt) (fun a b => strLt b a) th tn hay needle)
+  | .lt => .ok (orderLadder (· == .lt) (fun a b => strLt a b) th tn hay needle)
+  | .ge => .ok (orderLadder (· != .lt) (fun a b => strLe b a) th tn hay needle)
+  | .le => .ok (orderLadder (· != .gt) (fun a b => strLe a b) th tn hay needle)
   | .regex =>
-    match rx needle th.pyStr with
+    match rx needle hay with
     | some b => .ok b
     | none => .error (.crash .reError)
 
 /-- `Searches.search_matches(method, term, haystack)` for a scalar haystack and a text term. -/
 def searchMatches (rx : Str → Str → Option Bool) (m : Method) (haystack : Scalar) (term : Str) :
     Except Err Bool :=
-  searchTyped rx m (typedOfScalar haystack) (typedValue term) term
+  searchTyped rx m (typedOfScalar haystack) (typedValue term) (pyStr haystack) term
 
 /-- The same with a scalar in the needle position, as `KeywordSearches.max/min` call it
 (`needle` is the best value so far; `str(needle)` is used by the textual branches). -/
 def searchMatchesScalar (rx : Str → Str → Option Bool) (m : Method) (haystack needle : Scalar) :
     Except Err Bool :=
-  searchTyped rx m (typedOfScalar haystack) (typedOfScalar needle) (pyStr needle)
+  searchTyped rx m (typedOfScalar haystack) (typedOfScalar needle) (pyStr haystack) (pyStr needle)
 
 /-! ## The inversion sites of `Processor._get_nodes_by_search` over scalar candidates -/
 
@@ -323,8 +335,9 @@ def searchListSite (rx : Str → Str → Option Bool) (inv : Bool) (m : Method) 
 booleans match their case-insensitive spellings, ordering is numeric for numeric values (and
 false against a non-numeric term) and lexicographic for text, prefix/suffix/substring tests act
 on the value's text, a regular expression is searched in the value's text."  Both sides are read
-by the documented literal conversion (`typedOfScalar`, `typedValue`); the value's text is the
-`str()` of the value so read. -/
+by the documented literal conversion (`typedOfScalar`, `typedValue`) to decide what kind of
+thing they are; the value's text is its own `str()`.  In orderings Python's Booleans count as the
+numbers 1 and 0 (the pinned test-suite demands it); in equality they only match their spellings. -/
 namespace Spec
 
 /-- Three-way lexicographic comparison of texts by code point (core `List` order on `Char`). -/
@@ -355,10 +368,10 @@ def hasSubstring (text p : Str) : Bool :=
 def «matches» (rx : Str → Str → Option Bool) (m : Method) (value : Scalar) (term : Str) : Option Bool :=
   let v := typedOfScalar value
   let t := typedValue term
-  let text := v.pyStr
+  let text := pyStr value
   if v = .unmodelled || t = .unmodelled then none else
   if isOrdering m then
-    match v.num?, t.num? with
+    match v.ordNum?, t.ordNum? with
     | some (m1, e1), some (m2, e2) => some (accepts m (decCmp m1 e1 m2 e2))
     | some _, none => some false
     | none, _ => some (accepts m (textCmp text term))
